@@ -26,3 +26,17 @@ check('C11', 'symbolic execution of the MIR of <PEP440 as Ord>::cmp / eq with sy
       'DESIGN.md §7 C11')
 for e in ENGINES:
     e['serves_properties'] = sorted(set(e['serves_properties']) | {'C10', 'C11'})
+
+ENGINES.append(dict(name='relang', path='/verif/msym/relang.py', serves_properties=['C08', 'C09'],
+      kind_free_text='the parser regex literals (from the MIR constants) lowered to HIR by the locked regex-syntax and translated to z3 RegLan; language inclusion/difference against the SemVer 2.0.0 / PEP 440 Appendix B grammars, unbounded in string length'))
+check('C08', 'z3 regular-language inclusion of the real regex vs the SemVer grammar (unbounded) + symbolic execution of the MIR of SemVer::from_str/Display on all strings up to a length bound and structured digit families',
+      'relang decides L(spec) subset of L(SEMVER_REGEX) and produces a witness of the converse difference for strings of any length. msym runs the real from_str (regex matcher model, parse::<u64>, parse_identifiers, parse_build_metadata) and to_string on every string of length <= 7 (thorough 9) over ASCII plus non-ASCII class representatives and on structured families with numeric fields of up to 21 digits; per path z3 decides accepted <=> grammar and printed == input minus v. Models are replayed natively.',
+      'trusted: backtracking regex matcher over the HIR of the locked regex-syntax (validated against native on the repo test literals), python std models, z3 (sequence solver for relang). zerv check CLI exit status is outside. Known finding recorded: core numbers >= 2^64 rejected.',
+      'DESIGN.md §4, §7 C08')
+check('C09', 'z3 regular-language inclusion of the real regex vs PEP 440 Appendix B (unbounded) + symbolic execution of the MIR of PEP440::from_str/normalize/Display/cmp on bounded strings, digit families and spelling families',
+      'relang decides the two language inclusions for any length. msym runs from_str on every string of length <= 5 (thorough 7), on numeric groups of up to 11 (12) symbolic digits in every position and on every label/separator/case spelling with symbolic numbers; per path z3 decides accepted <=> Appendix B, printed == independently computed normal form (numbers preserved), from_str(print) prints the same (idempotence, second symbolic parse) and the real cmp/eq call the two records Equal.',
+      'trusted: regex matcher model, python std models (split/replace/parse/to_lowercase), my Appendix B pattern and normal-form constructor, z3. Known finding recorded: numbers >= 2^32 rejected.',
+      'DESIGN.md §4, §7 C09')
+for e in ENGINES:
+    if e['name'] in ('msym', 'native-driver'):
+        e['serves_properties'] = sorted(set(e['serves_properties']) | {'C08', 'C09'})
